@@ -502,6 +502,10 @@ func (w *world) attempts(rt *rapid.T) attempt {
 			mi = 0 // lockup: holds the denom
 		}
 		m := authtypes.NewModuleAddress(mods[mi]).String()
+		// bech32 has a second valid spelling of every address (all upper case): it names the same protected account
+		if rapid.Bool().Draw(rt, "upperCaseSpelling") {
+			m = strings.ToUpper(m)
+		}
 		a := attempt{obj: "module account via " + d[len(d)-8:], owner: -1, prevOwner: -2}
 		switch rapid.IntRange(0, 3).Draw(rt, "modMsg") {
 		case 0:
